@@ -154,6 +154,29 @@ CHECKS = {
     ),
 }
 
+# clauses added after the first catalogue (rule ids as in DESIGN.md §4); appended to the text of the claim
+LATER = {
+ "C01": "Also: strings become numbers through the floating-point reader alone (R01.9); substring() positions count characters (R01.8).",
+ "C02": "Also: every question put to the data tree is about a path taken off the path stack (R02.8); a predicate key is recorded whatever the two strings are (R02.9).",
+ "C03": "Also: the characters a number token collects include no first letter of an operator name (R03.10).",
+ "C04": "Also: the number lexer uses no integer parser (R04.23); the oracle grammar is transcribed from XPath 1.0 only (the '()' production the code once had was a defect, repaired).",
+ "C05": "Also: every format string in the xpath packages is a constant or the function's own format parameter (R05.13); execError never returns (R05.10, on SSA); an error arm reaches its sink with no further test (R05.3).",
+ "C06": "Also: assigning a captured variable's own cell is not counted as a write through shared state (effects engine).",
+ "C07": "Also: the word state makes progress (R07.11); line and column agree on the line terminator (R07.12).",
+ "C08": "Also: '+' outside quotes is always the concatenation token (R08.14); when indentation stripping runs, the last token read is the piece's closing quote (R08.15); quoting dispatch and piece+rest are decided on SSA values under each closing-quote model (R08.3, R08.4).",
+ "C10": "Also: nothing computed from one line is carried into the next in the per-line decoding loop (R10.11); the argument interner's key keeps statement kind and text apart (R10.12).",
+ "C11": "Also: node.useTree has one reader (R11.12); objects carried through a reviewed map iteration are part of the review (R11.1); order-sensitive phases are located also when handed to a driver as a function value (R11.2).",
+ "C12": "Also: the Compiler's mutable fields and their writers are a reviewed table (R12.10).",
+ "C13": "Also: defaults are judged against every part of a multi-part range (R13.11); each part of a range/length argument is read on its own (R13.12).",
+ "C14": "Also: the reference-status checker is called on every node of an augment/refine path (R14.11); staleness of an inherited status is decided by control flow (R14.7).",
+ "C15": "Also: AddWhenChildren attaches every when statement it is given (R15.10); a module's own imports precede those of its submodules (R15.11).",
+ "C16": "Also: a value lies in a multi-part range iff some part holds it (R16.12); NewIdentityref stores the list as given (R16.13); every error constructor writes the path with pathutil.Pathstr (R16.14).",
+ "C17": "Also: child tables are built at three reviewed places with the reviewed kind tests, also through a shared builder (R17.8); leaf/leaf-list name the first token too many (R17.9).",
+ "C18": "Also: checkMandatory enters a child only when isAChoice denies membership (R18.12); list cardinality is measured whatever the number of entries (R18.13).",
+ "C19": "Also: JSON integers are kept digit for digit (R19.13); the XML decoder stays strict (R19.14).",
+ "C20": "Also: every combinator returns a function of its own on every path (R20.8); kind tests handed on as parameters are checked per caller (R20.5).",
+}
+
 NOT_YET = "check under construction in this round (design in DESIGN.md §4); not claimed until armed"
 
 ALL = ["C%02d" % i for i in range(1, 21)]
@@ -172,7 +195,7 @@ def main():
             "evidence_file": "evidence/%s.json" % pid,
             "replay_cmd_template": "./check.sh %s quick  # re-analyses the tree; the report at {path} names file:line, rule and construct" % pid,
             "engine": "yvcheck",
-            "level_claimed": {"category": c["cat"], "text": c["text"], "design_ref": c["ref"]},
+            "level_claimed": {"category": c["cat"], "text": c["text"] + (" " + LATER[pid] if pid in LATER else ""), "design_ref": c["ref"]},
             "level_note": c["note"],
             "technique": c["technique"],
         })
